@@ -41,6 +41,8 @@ type SV struct {
 
 type Env struct {
 	site  *CallSite // call site whose arguments are bound to arg0, arg1, ... (site assertions)
+	// freshFrom: in an `after call ... assume` clause fresh(x) means "allocated by that call"
+	freshFrom string
 	x     *Exec
 	names map[string]SV
 	lets  map[string]ast.Expr
@@ -980,6 +982,9 @@ func (env *Env) callExpr(n *ast.CallExpr) SV {
 	case "off":
 		return svInt(arg(0).V[1].T)
 	case "fresh":
+		if env.freshFrom != "" {
+			return svBool(sx(">=", arg(0).V[0].T, env.freshFrom))
+		}
 		return svBool(sx(">=", arg(0).V[0].T, env.old.Alloc))
 	case "disjoint":
 		a, b := arg(0), arg(1)
